@@ -549,3 +549,8 @@ Proof.
     rewrite (ilog2_compat (- - x) x) by lra. ring.
   - rewrite (pred64_pos (- x)) by lra. rewrite (succ64_neg x H). ring.
 Qed.
+
+(* ---------- instantiating a theorem that only needs x < succ x and pred x < x ---------- *)
+Definition on_binary64 {P : (Q -> Q) -> (Q -> Q) -> Prop}
+  (thm : forall succ pred : Q -> Q, (forall x, x < succ x) -> (forall x, pred x < x) -> P succ pred) : P succ64 pred64 :=
+  thm succ64 pred64 succ64_gt pred64_lt.
